@@ -72,7 +72,8 @@ impl StoreCfg {
         }
     }
     pub fn open(&self, dir: &Path) -> Result<Database, String> {
-        OPENS.fetch_add(1, std::sync::atomic::Ordering::Relaxed);
+        // the leak grows with the bucket count (reader threads x segment files): many-bucket stores are charged more
+        OPENS.fetch_add((self.buckets as u64 / 2).max(1), std::sync::atomic::Ordering::Relaxed);
         let mut b = DatabaseBuilder::new();
         b.segment_size_bytes(self.segment_size)
             .total_buckets(self.buckets)
